@@ -924,7 +924,9 @@ class RequestHandler(BaseProtocol, Generic[_Request]):
         # remove handler, close transport if no handlers left
         if not self._force_close:
             self._task_handler = None
-            if self.transport is not None:
+            # Already closing (e.g. by WebSocketResponse): a second close() would
+            # detach asyncio's TLS transport, shutdown() could not abort it.
+            if self.transport is not None and not self.transport.is_closing():
                 self.transport.close()
 
     async def finish_response(
